@@ -176,6 +176,60 @@ theorem bytesFetched_nomagic (c : Nat) (file : Bytes) (e : Err) (hm : checkMagic
   unfold bytesFetched
   simp only [fetch_init_eq, take_ztake (show 12 ≤ chunkOf c by omega), hm]
 
+/-- the verdict the driver prints (guarded reader) is the model's verdict wherever it is one -/
+theorem openGuarded_sound (limit : Nat) (file : Bytes) :
+    (∀ h info w, openGuarded limit file = .ok h info w → openVerdict file = .ok (h, info)) ∧
+    (∀ e w, openGuarded limit file = .err e w → openVerdict file = .error e) := by
+  unfold openGuarded openVerdict decodeWhole
+  cases hf : inqFileFormat file with
+  | error e0 =>
+    refine ⟨?_, ?_⟩
+    · intro h info w hg; simp at hg
+    · intro e w hg
+      simp only [Verdict.err.injEq] at hg
+      rw [hg.1]
+  | ok fmt =>
+    simp only []
+    cases hm : checkMagic (ztake 12 file) with
+    | error e1 =>
+      refine ⟨?_, ?_⟩
+      · intro h info w hg; simp at hg
+      · intro e w hg
+        simp only [Verdict.err.injEq] at hg
+        rw [← hg.1]
+    | ok f =>
+      simp only []
+      have hs := guardRun_sound file.length limit (getBody f) (file.drop 4) 4 false
+      cases hg0 : guardRun file.length limit (getBody f) (file.drop 4) 4 false with
+      | big b m w =>
+        refine ⟨?_, ?_⟩
+        · intro h info w' hg; simp at hg
+        · intro e w' hg; simp at hg
+      | err e2 c w =>
+        have hr := hs.2 e2 c w hg0
+        rw [hr]
+        refine ⟨?_, ?_⟩
+        · intro h info w' hg; simp at hg
+        · intro e w' hg
+          simp only [Verdict.err.injEq] at hg
+          rw [← hg.1]
+      | ok h0 r c w =>
+        have hr := hs.1 h0 r c w hg0
+        rw [hr]
+        simp only []
+        cases hp : postPass h0 with
+        | error e3 =>
+          refine ⟨?_, ?_⟩
+          · intro h info w' hg; simp at hg
+          · intro e w' hg
+            simp only [Verdict.err.injEq] at hg
+            rw [← hg.1]
+        | ok info0 =>
+          refine ⟨?_, ?_⟩
+          · intro h info w' hg
+            simp only [Verdict.ok.injEq] at hg
+            rw [hg.1, hg.2.1]
+          · intro e w' hg; simp at hg
 /-! ### the witness of F14 -/
 
 /-- 40 bytes: "CDF\x01", numrecs 0, dim_list ABSENT, gatt_list = NC_ATTRIBUTE 1 attribute, name "a",
